@@ -258,6 +258,83 @@ end LinOp.C14
 
 namespace LinOp.C14
 
+theorem repL_allVal : ∀ (a : List Op), a.all (fun x => !x.isDiff) = true → repL a = []
+  | [], _ => rfl
+  | x :: xs, h => by
+    simp only [List.all_cons, Bool.and_eq_true] at h
+    cases x with
+    | leaf l => simp [Op.isDiff] at h
+    | node c aa dn' d' nkw' hid' => simp [Op.isDiff] at h
+    | val v => simp [repL, rep, repL_allVal xs h.2]
+
+/-- no tensor / operator valued keyword at all ⇔ no differentiable keyword names -/
+theorem allNotDiff_kwOf (dn : List String) (d : List Op) (nkw : KV)
+    (hlen : dn.length = d.length) (hd : d.all (·.isDiff) = true) :
+    (kwOf dn d nkw).all (fun p => !p.2.isDiff) = dn.isEmpty := by
+  unfold kwOf
+  rw [List.all_append]
+  have hv : (nkw.map (fun p => (p.1, Op.val p.2))).all (fun p => !p.2.isDiff) = true := by
+    apply List.all_eq_true.mpr
+    intro p hp
+    rcases List.mem_map.mp hp with ⟨w, _, rfl⟩
+    simp [Op.isDiff]
+  rw [hv, Bool.and_true]
+  cases dn with
+  | nil => simp
+  | cons n ns =>
+    cases d with
+    | nil => simp at hlen
+    | cons x xs =>
+      simp only [List.all_cons, Bool.and_eq_true] at hd
+      simp [List.zip_cons_cons, hd.1]
+
+theorem zero_node_facts (cfg : Cfg) (a : List Op) (dn : List String) (d : List Op) (nkw hid : KV)
+    (hok : nodeOK cfg "ZeroLinearOperator" a dn d nkw hid = true) :
+    dn = [] ∧ d = [] ∧ repL a = [] ∧ resolveZero cfg nkw = nkw := by
+  unfold nodeOK at hok
+  cases hL : cfg.layout "ZeroLinearOperator" with
+  | none => rw [hL] at hok; simp at hok
+  | some L =>
+    rw [hL] at hok
+    simp only [Bool.and_eq_true, decide_eq_true_eq] at hok
+    obtain ⟨⟨⟨⟨⟨⟨⟨⟨⟨⟨hnf, _⟩, hlen⟩, hdiff⟩, _⟩, _⟩, _⟩, _⟩, _⟩, _⟩, _⟩ := hok
+    have hnf' : (a.all (fun x => !x.isDiff) && (kwOf dn d nkw).all (fun p => !p.2.isDiff) &&
+        (kwOf dn d nkw).all (fun p => p.1 != "dtype" || isDtVal p.2)) = true := by
+      have e : normalForm "ZeroLinearOperator" a (kwOf dn d nkw) =
+          (a.all (fun x => !x.isDiff) && (kwOf dn d nkw).all (fun p => !p.2.isDiff) &&
+            (kwOf dn d nkw).all (fun p => p.1 != "dtype" || isDtVal p.2)) := by
+        unfold normalForm
+        rw [if_neg (by decide), if_neg (by decide), if_neg (by decide), if_neg (by decide), if_neg (by decide),
+          if_pos rfl]
+      rw [← e]; exact hnf
+    simp only [Bool.and_eq_true] at hnf'
+    obtain ⟨⟨hA, hB⟩, hC⟩ := hnf'
+    rw [allNotDiff_kwOf dn d nkw hlen hdiff] at hB
+    have hdn : dn = [] := by simpa using hB
+    have hd : d = [] := by
+      subst hdn
+      exact List.eq_nil_of_length_eq_zero (by simpa using hlen.symm)
+    subst hdn; subst hd
+    refine ⟨rfl, rfl, repL_allVal a hA, ?_⟩
+    unfold resolveZero
+    have hC' : ∀ p ∈ nkw, p.1 = "dtype" → isDtVal (Op.val p.2) = true := by
+      intro p hp hk
+      have hm : (p.1, Op.val p.2) ∈ kwOf [] [] nkw := by
+        unfold kwOf; simp only [List.zip_nil_left, List.nil_append]
+        exact List.mem_map.mpr ⟨p, hp, rfl⟩
+      have := List.all_eq_true.mp hC _ hm
+      simpa [hk] using this
+    have : ∀ p ∈ nkw, (if p.1 = "dtype" then (match p.2 with | .none => (p.1, Val.dt cfg.defaultDT) | _ => p) else p) = p := by
+      intro p hp
+      by_cases hk : p.1 = "dtype"
+      · rw [if_pos hk]
+        have := hC' p hp hk
+        obtain ⟨pk, pv⟩ := p
+        cases pv <;> simp_all [isDtVal]
+      · rw [if_neg hk]
+    calc nkw.map _ = nkw.map id := List.map_congr_left this
+      _ = nkw := List.map_id _
+
 theorem width_eq (x : Op) (h : representable x = true) : width x = (rep x).length := by
   cases x with
   | leaf l => simp [width, rep]
@@ -297,8 +374,14 @@ theorem call_tree (cfg : Cfg) : ∀ (o : Op), normal cfg o = true → representa
   | .val v, _, hr, _, _ => by simp [representable] at hr
   | .node cls a dn d nkw hid, hn, hr, pre, rest => by
     simp only [normal, Bool.and_eq_true] at hn
-    simp only [representable, Bool.and_eq_true] at hr
     obtain ⟨⟨hok, hna⟩, hnd⟩ := hn
+    by_cases hz : cls = "ZeroLinearOperator"
+    · subst hz
+      obtain ⟨hdn, hd0, hra, hres⟩ := zero_node_facts cfg a dn d nkw hid hok
+      subst hdn; subst hd0
+      simp only [treeAt, if_pos, call, hres]
+      exact construct_fix cfg _ a [] [] nkw hid hok
+    simp only [representable, if_neg hz, Bool.and_eq_true] at hr
     have ha := callL_tree cfg a hna hr.1 [] (repL d)
     have hd := callL_tree cfg d hnd hr.2 (repL a) []
     simp only [List.nil_append, List.length_nil, List.append_nil] at ha hd
@@ -312,7 +395,7 @@ theorem call_tree (cfg : Cfg) : ∀ (o : Op), normal cfg o = true → representa
         rw [hL] at hok
         simp only [Bool.and_eq_true, decide_eq_true_eq] at hok
         exact hok.1.1.1.1.1.1.1.1.2
-    simp only [treeAt, call, rep]
+    simp only [treeAt, if_neg hz, call, rep]
     have hslice : ((pre ++ (repL a ++ repL d) ++ rest).drop pre.length).take
         (pre.length + (repL a ++ repL d).length - pre.length) = repL a ++ repL d := by
       rw [List.append_assoc, List.drop_left, Nat.add_sub_cancel_left, List.take_left]
@@ -409,18 +492,17 @@ theorem lookupInt_kwOf (dn : List String) (d : List Op) (nkw : KV) (k : String)
     rw [find_none_of_not_hasKey _ _ hk]
     simp
 
-theorem allDict_kwOf (dn : List String) (d : List Op) (nkw : KV) (k : String)
+theorem allPred_kwOf (q : Op → Bool) (hq : ∀ x : Op, x.isDiff = true → q x = false)
+    (dn : List String) (d : List Op) (nkw : KV) (k : String)
     (hlen : dn.length = d.length) (hd : d.all (·.isDiff) = true) :
-    (kwOf dn d nkw).all (fun p => p.1 != k || isDictVal p.2) =
-      (!dn.contains k && (nkw.map (fun p => (p.1, Op.val p.2))).all (fun p => p.1 != k || isDictVal p.2)) := by
+    (kwOf dn d nkw).all (fun p => p.1 != k || q p.2) =
+      (!dn.contains k && (nkw.map (fun p => (p.1, Op.val p.2))).all (fun p => p.1 != k || q p.2)) := by
   unfold kwOf
   rw [List.all_append]
   congr 1
-  have hnd : ∀ p ∈ dn.zip d, isDictVal p.2 = false := by
+  have hnd : ∀ p ∈ dn.zip d, q p.2 = false := by
     intro p hp
-    have := List.all_eq_true.mp hd _ (List.of_mem_zip hp).2
-    obtain ⟨pk, pv⟩ := p
-    cases pv <;> simp_all [Op.isDiff, isDictVal]
+    exact hq _ (List.all_eq_true.mp hd _ (List.of_mem_zip hp).2)
   by_cases hc : dn.contains k = true
   · have hk : hasKey (dn.zip d) k = true := by rw [hasKey_zip dn d hlen]; exact hc
     simp only [hasKey, List.any_eq_true] at hk
@@ -440,6 +522,18 @@ theorem allDict_kwOf (dn : List String) (d : List Op) (nkw : KV) (k : String)
     simp only [decide_eq_true_eq] at this
     simp [this]
 
+theorem isDictVal_diff (x : Op) (h : x.isDiff = true) : isDictVal x = false := by
+  cases x <;> simp_all [Op.isDiff, isDictVal]
+
+theorem isDtVal_diff (x : Op) (h : x.isDiff = true) : isDtVal x = false := by
+  cases x <;> simp_all [Op.isDiff, isDtVal]
+
+theorem allDict_kwOf (dn : List String) (d : List Op) (nkw : KV) (k : String)
+    (hlen : dn.length = d.length) (hd : d.all (·.isDiff) = true) :
+    (kwOf dn d nkw).all (fun p => p.1 != k || isDictVal p.2) =
+      (!dn.contains k && (nkw.map (fun p => (p.1, Op.val p.2))).all (fun p => p.1 != k || isDictVal p.2)) :=
+  allPred_kwOf isDictVal isDictVal_diff dn d nkw k hlen hd
+
 /-- the features of the positional arguments that `normalForm` reads -/
 def argFeat (a : List Op) : List (String × Bool) := a.map (fun x => ((skel x).cls, (skel x).subTri))
 
@@ -457,7 +551,9 @@ theorem normalForm_congr (cls : String) (a a' : List Op) (dn : List String) (d d
   have hf := argFeat_congr a a' ha
   unfold normalForm
   rw [lookupInt_kwOf dn d nkw "dim" hlen hd, lookupInt_kwOf dn d' nkw "dim" hlen' hd',
-    allDict_kwOf dn d nkw _ hlen hd, allDict_kwOf dn d' nkw _ hlen' hd']
+    allDict_kwOf dn d nkw _ hlen hd, allDict_kwOf dn d' nkw _ hlen' hd',
+    allNotDiff_kwOf dn d nkw hlen hd, allNotDiff_kwOf dn d' nkw hlen' hd',
+    allPred_kwOf isDtVal isDtVal_diff dn d nkw "dtype" hlen hd, allPred_kwOf isDtVal isDtVal_diff dn d' nkw "dtype" hlen' hd']
   have hany : ∀ (dd : List Op), dn.length = dd.length →
       (kwOf dn dd nkw).any (fun p => decide (p.1 = "num_nonbatch_dimensions")) =
         (dn.contains "num_nonbatch_dimensions" || hasKey nkw "num_nonbatch_dimensions") := by
@@ -481,7 +577,11 @@ theorem normalForm_congr (cls : String) (a a' : List Op) (dn : List String) (d d
         have e : ∀ zs : List Op, zs.all (fun z => z.cls != "#tensor") = (argFeat zs).all (fun q => q.1 != "#tensor") := by
           intro zs; unfold argFeat; rw [List.all_map]; congr 1; funext z; simp [cls_skel]
         rw [e, e, argFeat_congr _ _ ha]
-      simp only [hall, hc, hs]
+      have hallv : (x :: xs).all (fun z => !z.isDiff) = (y :: ys).all (fun z => !z.isDiff) := by
+        have e : ∀ zs : List Op, zs.all (fun z => !z.isDiff) = (skelL zs).all (fun q => !q.isDiff) := by
+          intro zs; rw [skelL_eq_map, List.all_map]; congr 1; funext z; simp [isDiff_skel]
+        rw [e, e, ha]
+      simp only [hall, hallv, hc, hs]
 
 theorem nodeOK_congr (cfg : Cfg) (cls : String) (a a' : List Op) (dn : List String) (d d' : List Op) (nkw hid : KV)
     (ha : skelL a = skelL a') (hd : skelL d = skelL d')
@@ -524,9 +624,18 @@ theorem call_any (cfg : Cfg) : ∀ (o : Op), normal cfg o = true → representab
   | .val v, _, hr, _, _, _, _ => by simp [representable] at hr
   | .node cls a dn d nkw hid, hn, hr, pre, ts, rest, hts => by
     simp only [normal, Bool.and_eq_true] at hn
-    simp only [representable, Bool.and_eq_true] at hr
     obtain ⟨⟨hok, hna⟩, hnd⟩ := hn
     simp only [rep, List.length_append] at hts
+    by_cases hz : cls = "ZeroLinearOperator"
+    · subst hz
+      obtain ⟨hdn, hd0, hra, hres⟩ := zero_node_facts cfg a dn d nkw hid hok
+      subst hdn; subst hd0
+      have hts0 : ts = [] := List.eq_nil_of_length_eq_zero (by simpa [hra, repL] using hts)
+      subst hts0
+      refine ⟨.node "ZeroLinearOperator" a [] [] nkw hid, ?_, rfl, by simp [rep, hra, repL]⟩
+      simp only [treeAt, if_pos, call, hres]
+      exact construct_fix cfg _ a [] [] nkw hid hok
+    simp only [representable, if_neg hz, Bool.and_eq_true] at hr
     obtain ⟨hla, hld, hsplit⟩ := take_drop_split ts (repL a).length (repL d).length hts
     obtain ⟨a', hca, hsa, hra⟩ := callL_any cfg a hna hr.1 [] (ts.take (repL a).length) (ts.drop (repL a).length) hla
     obtain ⟨d', hcd, hsd, hrd⟩ := callL_any cfg d hnd hr.2 (ts.take (repL a).length) (ts.drop (repL a).length) [] hld
@@ -543,7 +652,7 @@ theorem call_any (cfg : Cfg) : ∀ (o : Op), normal cfg o = true → representab
         simp only [Bool.and_eq_true, decide_eq_true_eq] at hok'
         exact hok'.1.1.1.1.1.1.1.1.2
     refine ⟨.node cls a' dn d' nkw hid, ?_, ?_, ?_⟩
-    · simp only [treeAt, call, List.length_append]
+    · simp only [treeAt, if_neg hz, call, List.length_append]
       have hslice : ((pre ++ ts ++ rest).drop pre.length).take
           (pre.length + ((repL a).length + (repL d).length) - pre.length) = ts := by
         rw [List.append_assoc, List.drop_left, Nat.add_sub_cancel_left, ← hts, List.take_left]
